@@ -134,12 +134,14 @@ def grid_setup_concrete(G, nr, ntheta, nsc, antipodal=False):
 VEC_TYPE = re.compile(r"(Vector\s*<|std::vector\s*<)")
 
 
-def classify_params(f):
+def classify_params(f, enum_types=()):
     """-> list of (kind, ctype, name); kind in vec | obj | out | val"""
     res = []
     for (ty, name) in f["params"]:
         t = ty.replace("const", "").strip()
-        if VEC_TYPE.search(ty):
+        if t in enum_types:
+            res.append(("val", t, name))
+        elif VEC_TYPE.search(ty):
             res.append(("vec", None, name))
         elif re.match(r"^(double|int|bool)\s*&$", t) and "const" not in ty:
             res.append(("out", t[:-1].strip(), name))
@@ -165,7 +167,7 @@ def emit_function_globals(cname, f, rules, layer, callname=None, enum_types=()):
     nothing at run time; the extractor checks that call sites pass identically named vectors."""
     if re.search(r"\breturn\b[^;]*[^;\s]", f["body"]) and f["ret"].split()[-1:] == ["void"]:
         pass
-    kinds = classify_params(f)
+    kinds = classify_params(f, enum_types)
     body = common_body_rewrites(f["body"], rules, layer)
     keep = [(k, t, n) for (k, t, n) in kinds if k == "val"]
     outs = [n for (k, t, n) in kinds if k == "out"]
@@ -185,7 +187,7 @@ def emit_function_globals(cname, f, rules, layer, callname=None, enum_types=()):
     return dict(text=text, wrapper=wrapper, kinds=kinds, impl=impl, name=callname or cname)
 
 
-def check_call_sites(text, callee, kinds):
+def check_call_sites(text, callee, kinds, ignore=()):
     """every call `callee(args)` in text passes, at each vec/obj position, an identifier equal to the
     callee's parameter name (so that dropping the argument is meaning-preserving)."""
     n = 0
@@ -197,6 +199,8 @@ def check_call_sites(text, callee, kinds):
         if len(args) != len(kinds):
             raise ExtractError("call of %s with %d args, expected %d" % (callee, len(args), len(kinds)))
         for a, (k, t, name) in zip(args, kinds):
+            if k in ("vec", "obj") and name in ignore:
+                continue          # scratch storage that is only handed to a callee replaced by its contract
             if k in ("vec", "obj") and a.strip() != name:
                 raise ExtractError("call of %s passes `%s` for reference parameter `%s`" % (callee, a, name))
         n += 1
@@ -330,7 +334,7 @@ def alias_defs(body, rules, obj, table, fname):
 
 
 def emit_class_methods(cls, methods, rules, layer, hashes, lc="level_cache_", pre_rewrite=None, vec_names=(),
-                       enum_types=()):
+                       enum_types=(), extra_vecs=()):
     """methods: list of (relpath, method) in callee-first order.  Emits every method as a C function
     `<cls>_<method>__impl(value params)` (R1, R3); within the class block the unqualified method name is a
     wrapper macro of the original arity so call sites stay verbatim."""
@@ -354,7 +358,7 @@ def emit_class_methods(cls, methods, rules, layer, hashes, lc="level_cache_", pr
                              r"\1VEC_COPY(\2, \3);", body)
         body = rules.sub("R9.omp_get_max_threads", r"\bomp_get_max_threads\(\)", "verif_omp_max_threads", body)
         for e in emitted:
-            check_call_sites(body, e["name"], e["kinds"])
+            check_call_sites(body, e["name"], e["kinds"], ignore=extra_vecs)
         f["body"] = body
         e = emit_function_globals("%s_%s" % (cls, m), f, rules, layer, callname=m, enum_types=enum_types)
         for (a, t) in adefs:
